@@ -23,7 +23,7 @@ def general_position(P):
     return True
 
 
-def fit_case(cid, kind, P, Hd, order, queries, s):
+def fit_case(cid, kind, P, Hd, order, queries, s, tolerance=1e-12):
     """P: rows <<y, x_low..>> integers; Hd: extra high-dimensional columns (integers); order: column order
     of low_dim_idx in X; s: dyadic scale divisor of all values."""
     from skmatter.sample_selection import DirectionalConvexHull
@@ -44,7 +44,7 @@ def fit_case(cid, kind, P, Hd, order, queries, s):
     try:
         with warnings.catch_warnings():
             warnings.simplefilter("ignore")
-            m = DirectionalConvexHull(low_dim_idx=cols).fit(X, y)
+            m = DirectionalConvexHull(low_dim_idx=cols, tolerance=tolerance).fit(X, y)
             dist = m.score_samples(X, y) * s
             c["sel"] = [int(i) + 1 for i in m.selected_idx_]
             c["sgn"] = [int(np.sign(v)) if abs(v) > 1e-9 else 0 for v in dist]
@@ -98,7 +98,13 @@ def gen(args):
             queries.append((int(rng.integers(-12, 60 if conv else 12)), qx))
         cid = "w%d-%d" % (wid, t)
         t += 1
-        base = fit_case(cid, "base", P, Hd, order, queries, s)
+        # the tolerance only separates "on" from "below" the surface; the hull itself must not depend on it, also for
+        # steep hulls (one hull dimension, targets in large units)
+        tol = float(rng.choice([1e-12, 1e-12, 1e-8, 1e-4, 1e-3]))
+        if d == 1 and rng.random() < 0.3:
+            P = P.copy(); P[:, 0] *= int(rng.choice([64, 1024]))
+            queries = [(qy * 64, qx) for qy, qx in queries]
+        base = fit_case(cid, "base", P, Hd, order, queries, s, tol)
         out.append(base)
         if base["raised"]:
             continue
@@ -112,13 +118,13 @@ def gen(args):
             if not general_position(P2):
                 continue
             Hd2 = np.vstack([Hd, rng.integers(-5, 6, size=(k, nh))])
-            c2 = fit_case(cid + "-above", "added-above", P2, Hd2, order, [], s)
+            c2 = fit_case(cid + "-above", "added-above", P2, Hd2, order, [], s, tol)
             c2.update({"nbase": N, "basesel": base["sel"], "basedq": base["dq"], "A": 1, "B": 0})
             out.append(c2)
         elif v == 1:     # positive affine map of the target
             A, B = int(rng.integers(1, 5)), int(rng.integers(-7, 8))
             P2 = P.copy(); P2[:, 0] = A * P[:, 0] + B
-            c2 = fit_case(cid + "-affine", "affine-y", P2, Hd, order, [], s)
+            c2 = fit_case(cid + "-affine", "affine-y", P2, Hd, order, [], s, tol)
             c2.update({"nbase": N, "basesel": base["sel"], "basedq": base["dq"], "A": A, "B": B})
             out.append(c2)
     return out
